@@ -31,12 +31,18 @@ def check_case(run, fcp, sch, name, v, text, sig=None):
     case = {"schema": text, "struct": name, "value": v, "description": sch.decls}
     want = ref.encode(sch, name, v)
     case["canonical"] = want
+    import copy as _copy
+
+    pristine = _copy.deepcopy(v)
     try:
         b = bytes(serde.encode(fcp, name, v))
     except Exception as e:
         run.violation("encode raised %s: %s" % (type(e).__name__, e), case)
         return
     run.count("encode_compared")
+    if not ref.same(v, pristine):
+        run.violation("encode() modified the value it was given (the caller's object)", dict(case, value=pristine, value_after_encode=v))
+        return
     if b != want:
         case["bytes"] = b
         run.violation("encode(v) differs from the canonical wire bytes", case)
